@@ -331,7 +331,7 @@ class TM:
         if D_FORM in self.dev:
             inner.gs = dict(GS0)
             inner.gcs = "DeviceGray"
-        inner.gs["ctm"] = gfx.mat_mul(gfx.mat(*f["matrix"]), self.gs["ctm"])
+        inner.gs["ctm"] = gfx.mat_mul(gfx.mat(*(f["matrix"] or gfx.IDENT)), self.gs["ctm"])  # no /Matrix: identity
         inner.dctm = inner.gs["ctm"]
         inner.stack = ()
         inner.intext = False
@@ -440,6 +440,9 @@ META = {
         "Family rawsplit: 4 hand-written programs with white space inside literal strings (blank, LF, CR, CR LF, escaped end-of-line), comments, a hex string, "
         "an array and an inline image (dictionary and ID/EI framing), cut before and after every white-space byte into 2 streams (both seams) and at every pair of "
         "such bytes into 3 streams. "
+        "Family misc: 4 caller CTMs x 3 forms without /Matrix or with an identity one that leave a cm (or an unbalanced q cm) behind, one nested, text shown after Do; "
+        "all 8 direct/indirect patterns of a three-font /Font dictionary on the page and in a form (one caching resource manager); a vertical-writing font "
+        "(Type0, Identity-V, DW2/W2): 2 CTMs x Tc {0,-2} x all ordered pairs of 5 show operators (Tj, TJ with numbers between / before strings, ', \"), glyph origins judged. "
         "Family leftover: every list of 1..2 operands from {30, 40, (A), /F2} left unconsumed at the end of a page (or of a form XObject), followed -- "
         "directly, after an unrelated page, or after the form -- by a page with one of 12 operators lacking operands (inside and outside BT, plus a bare cm) "
         "and then show operators; one interpreter/device per document, every page judged on its own. "
@@ -451,7 +454,7 @@ META = {
     "assumptions": [
         "operand values outside the alphabet (two values per parameter, dyadic) are not explored; floats compared with 1e-9 relative tolerance",
         "histories longer than the depth bound are not explored; dedup merges histories reaching the same (real, model) state",
-        "glyph box convention (descent .. descent+size, advance wide) is taken from LTChar's documented behaviour; vertical fonts, Tr, Type3 are out of scope",
+        "glyph box convention (descent .. descent+size, advance wide) is taken from LTChar's documented behaviour; vertical fonts only in family misc (origins only, Tz 100); Tr, Type3 are out of scope",
         "fill colour before any colour operator (ISO: black) is not judged; pdfminer reports None",
         "partially ill-typed composite operators (' and \" with a wrong string operand) are not generated; extra operands are not generated",
         "fast seam replaces PDFPage.contents by in-memory PDFStream objects on a page parsed from a real file; the complete-file seam is used for histories up to full_depth and their splits",
@@ -830,6 +833,195 @@ def left_check(leftover, st):
                      allexp, allobs, "operands left at the end of a page/form are used by a later operator: " + ",".join(sorted(bad)))
 
 
+# ------------------------------------------------------------------ family misc: Matrix-less forms, mixed font resources, vertical writing
+_SELF = (("Tc", 0), ("Tw", 0), ("Tz", 100), ("Ts", 0), ("g", Fr(1, 4)))
+FORMS.update({
+    # no /Matrix at all; a cm that nothing undoes
+    "FmC": {"matrix": None, "fonts": {"F1": "B"}, "xobjects": [],
+            "events": (("cm", 1, 0, 0, 1, 3, 4), ("BT",), ("Tf", "/F1", 8)) + _SELF + (("Tj", b"AB"), ("ET",))},
+    # an explicit identity /Matrix; an unbalanced q cm
+    "FmQ": {"matrix": (1, 0, 0, 1, 0, 0), "fonts": {"F1": "B"}, "xobjects": [],
+            "events": (("q",), ("cm", 2, 0, 0, 2, 0, 0), ("BT",), ("Tf", "/F1", 8)) + _SELF + (("Tj", b"AB"), ("ET",))},
+    # Matrix-less form invoking the Matrix-less form, then showing text itself
+    "FmX": {"matrix": None, "fonts": {"F1": "C"}, "xobjects": ["FmC"],
+            "events": (("cm", 0, 1, -1, 0, 8, 0), ("Do", "/FmC"), ("BT",), ("Tf", "/F1", 16)) + _SELF + (("Tj", b"C"), ("ET",))},
+    # a form whose own /Font resources mix direct and indirect dictionaries
+    "FmR": {"matrix": None, "fonts": {"F1": "A", "F2": "B", "F3": "C"}, "xobjects": [],
+            "events": (("BT",), ("Tf", "/F1", 8), ("Tj", b"AB"), ("Tf", "/F2", 8), ("Tj", b"AB"), ("Tf", "/F3", 8), ("Tj", b"AB"), ("ET",))},
+})
+MISC_AFTER = (("BT",), ("Tf", "/F1", 8), ("Tj", b"A B"), ("ET",))
+
+
+def _form_obj(d, name, fonts_res, xobj_refs):
+    f = FORMS[name]
+    dd = {"Type": G.N("XObject"), "Subtype": G.N("Form"), "BBox": [0, 0, 400, 400], "Resources": {"Font": fonts_res}}
+    if f["matrix"] is not None:
+        dd["Matrix"] = list(f["matrix"])
+    if f["xobjects"]:
+        dd["Resources"]["XObject"] = {k: xobj_refs[k] for k in f["xobjects"]}
+    return d.add(G.Stream(dd, gfx.program(f["events"])))
+
+
+def misc_pages(st):
+    """(a) caller CTM pool x forms without / with identity Matrix that leave a cm behind, text shown after Do;
+    (b) all 8 direct/indirect patterns of a three-font /Font dictionary, on the page and in a form, one resource manager"""
+    d = G.Doc()
+    wset = WIDTH_SETS[0]
+    fref = {k: d.add(font_dict(k, wset)) for k in ("A", "B", "C")}
+    xr: Dict[str, Any] = {}
+    for name in ("FmC", "FmQ", "FmX"):
+        xr[name] = _form_obj(d, name, {k: fref[v] for k, v in FORMS[name]["fonts"].items()}, xr)
+    pages, models = [], []
+    page_fonts = {"F1": fref["A"], "F2": fref["B"]}
+    for cm in [None] + CM:
+        for name in ("FmC", "FmQ", "FmX"):
+            evs = ((cm,) if cm else ()) + (("Do", "/" + name),) + MISC_AFTER
+            pages.append((gfx.program(evs), {"Font": page_fonts, "XObject": dict(xr)}))
+            models.append((evs, {"fonts": {"F1": "A", "F2": "B"}, "xobjects": ["FmC", "FmQ", "FmX"]}))
+    for pattern in itertools.product((0, 1), repeat=3):  # 1 = direct dictionary, 0 = indirect reference
+        fonts = {n: (font_dict(k, wset) if direct else fref[k]) for (n, k), direct in zip((("F1", "A"), ("F2", "B"), ("F3", "C")), pattern)}
+        evs = FORMS["FmR"]["events"]
+        pages.append((gfx.program(evs), {"Font": fonts}))
+        models.append((evs, {"fonts": {"F1": "A", "F2": "B", "F3": "C"}, "xobjects": []}))
+        fm = _form_obj(d, "FmR", fonts, {})
+        evs2 = (("Do", "/FmR"),) + MISC_AFTER
+        pages.append((gfx.program(evs2), {"Font": {"F1": fref["A"]}, "XObject": {"FmR": fm}}))
+        models.append((evs2, {"fonts": {"F1": "A"}, "xobjects": ["FmR"]}))
+    data = gfx.pages_doc(pages, doc=d)
+    out = gfx.run_pages(data)
+    st.traces += 1
+    for (evs, res), (lt, exc) in zip(models, out):
+        m = TM()
+        m.res = res
+        for ev in evs:
+            m._do(ev)
+        exp = list(m.out)
+        obs = observe(lt) if exc is None else gfx.exc_sig(exc)
+        bad = diff(exp, obs) if exc is None else ["exception"]
+        st.case(None, nontrivial=bool(exp), outcome=h64(repr(obs)))
+        if bad:
+            sig = "C05/" + ("form-without-matrix-ctm" if any(e[0] == "Do" and e[1] != "/FmR" for e in evs) else "mixed-direct-indirect-fonts") + ":" + ",".join(sorted(bad))
+            st.violation(sig, {"family": "misc", "events": list(evs), "pdf": data if st.viol_counts[sig] < 1 else b""},
+                         gfx.fl(exp), obs, "Matrix-less form / mixed font resources: " + ",".join(sorted(bad)))
+    if len(out) != len(pages):
+        st.violation("C05/misc:pages", {"family": "misc"}, len(pages), len(out), "page count")
+    return len(pages)
+
+
+# vertical writing (ISO 9.4.4, 9.7.4.3): the displacement of a glyph is (0, w1); the pen moves along y by
+# (w1 - Tj/1000) * Tfs + Tc; horizontal scaling does not apply (kept at 100 here)
+V_W1 = {1: -500, 2: -750}   # W2; everything else DW2 = -1000
+V_SHOWS = [
+    ("Tj", b"\x00\x01\x00\x02\x00\x03"),
+    ("TJ", (b"\x00\x01", -250, b"\x00\x02\x00\x03", 500, b"\x00\x01")),
+    ("TJ", (125, b"\x00\x03", b"\x00\x02")),
+    ("'", b"\x00\x02\x00\x01"),
+    ('"', 1, -1, b"\x00\x03\x00\x01"),
+]
+
+
+def vert_model(evs):
+    ctm = gfx.IDENT
+    Tm = Tlm = gfx.IDENT
+    Tc, Tl, Tfs = 0, 0, None
+    out = []
+
+    def nl():
+        nonlocal Tm, Tlm
+        Tlm = gfx.mat_mul((1, 0, 0, 1, 0, -Tl), Tlm)
+        Tm = Tlm
+
+    def show(seq):
+        nonlocal Tm
+        for el in seq:
+            if isinstance(el, bytes):
+                for i in range(0, len(el), 2):
+                    cid = el[i] * 256 + el[i + 1]
+                    out.append(gfx.mat_mul(Tm, ctm))
+                    ty = Fr(V_W1.get(cid, -1000), 1000) * Tfs + Tc
+                    Tm = gfx.mat_mul((1, 0, 0, 1, 0, ty), Tm)
+            else:
+                Tm = gfx.mat_mul((1, 0, 0, 1, 0, -Fr(el) / 1000 * Tfs), Tm)
+
+    for ev in evs:
+        op, a = ev[0], ev[1:]
+        if op == "cm":
+            ctm = gfx.mat_mul(gfx.mat(*a), ctm)
+        elif op == "BT":
+            Tm = Tlm = gfx.IDENT
+        elif op == "Tf":
+            Tfs = gfx.num(a[1])
+        elif op == "Tc":
+            Tc = gfx.num(a[0])
+        elif op == "TL":
+            Tl = gfx.num(a[0])
+        elif op == "Td":
+            Tlm = gfx.mat_mul((1, 0, 0, 1, gfx.num(a[0]), gfx.num(a[1])), Tlm)
+            Tm = Tlm
+        elif op == "Tj":
+            show([a[0]])
+        elif op == "TJ":
+            show(a[0])
+        elif op == "'":
+            nl()
+            show([a[0]])
+        elif op == '"':
+            Tc = gfx.num(a[1])
+            nl()
+            show([a[2]])
+    return out
+
+
+def vert_pages(st):
+    d = G.Doc()
+    cid = d.add({"Type": G.N("Font"), "Subtype": G.N("CIDFontType2"), "BaseFont": G.N("VerifV"),
+                 "CIDSystemInfo": {"Registry": b"Adobe", "Ordering": b"Identity", "Supplement": 0},
+                 "DW": 1000, "DW2": [880, -1000], "W2": [1, [-500, 500, 880, -750, 500, 880]], "CIDToGIDMap": G.N("Identity"),
+                 "FontDescriptor": {"Type": G.N("FontDescriptor"), "FontName": G.N("VerifV"), "Flags": 4, "FontBBox": [0, -250, 1000, 750],
+                                    "Ascent": 750, "Descent": -250, "ItalicAngle": 0, "CapHeight": 700, "StemV": 80}})
+    f0 = d.add({"Type": G.N("Font"), "Subtype": G.N("Type0"), "BaseFont": G.N("VerifV"), "Encoding": G.N("Identity-V"),
+                "DescendantFonts": [cid]})
+    pages, progs = [], []
+    for cm in (None, CM[2]):
+        for tc in (0, -2):
+            for s1 in V_SHOWS:
+                for s2 in V_SHOWS:
+                    evs = ((cm,) if cm else ()) + (("BT",), ("Tf", "/V1", 10), ("TL", 12), ("Td", 40, 300), ("Tc", tc), s1, s2, ("ET",))
+                    progs.append(evs)
+                    pages.append((gfx.program(evs), {"Font": {"V1": f0}}))
+    data = gfx.pages_doc(pages, doc=d)
+    out = gfx.run_pages(data)
+    st.traces += 1
+    from pdfminer.layout import LTChar
+
+    for evs, (lt, exc) in zip(progs, out):
+        exp = vert_model(evs)
+        if exc is None:
+            chars = gfx.flatten(lt, LTChar)
+            obs = [tuple(c.matrix) for c in chars]
+            bad = [] if len(obs) == len(exp) and all(gfx.close_seq(tuple(e), o) for e, o in zip(exp, obs)) else (
+                ["count"] if len(obs) != len(exp) else ["origin"])
+            if not bad and any(c.fontname != "VerifV" for c in chars):
+                bad = ["font"]
+        else:
+            obs, bad = gfx.exc_sig(exc), ["exception"]
+        st.case(None, nontrivial=True, outcome=h64(repr(obs)))
+        if bad:
+            sig = "C05/vertical-writing:" + ",".join(bad)
+            st.violation(sig, {"family": "misc", "vertical": True, "events": list(evs), "pdf": data if st.viol_counts[sig] < 1 else b""},
+                         gfx.fl(exp), obs, "glyph origins under a vertical (Identity-V, DW2/W2) font: " + ",".join(bad))
+    return len(pages)
+
+
+def misc_shard(tier, st):
+    n = misc_pages(st) + vert_pages(st)
+    st.states += n + 1
+    st.transitions += n
+    st.add("misc_pages", n)
+    st.sample({"family": "misc", "vertical_page": gfx.program((("BT",), ("Tf", "/V1", 10), ("Tc", -2), V_SHOWS[1], ("ET",))),
+               "form_without_matrix": gfx.program(FORMS["FmC"]["events"])})
+
+
 def left_shard(tier, st):
     n = 0
     for k in (1, 2):
@@ -852,7 +1044,7 @@ def shards(tier):
     from mc.core import Stats
 
     b = BOUNDS[tier]
-    out = [("same", r1, r2) for r1 in (0, 1) for r2 in (None, 0, 1)] + [("left", 0, 0)] + [("raw", i, 0) for i in range(len(RAW_PROGRAMS))]
+    out = [("same", r1, r2) for r1 in (0, 1) for r2 in (None, 0, 1)] + [("left", 0, 0)] + [("raw", i, 0) for i in range(len(RAW_PROGRAMS))] + [("misc", 0, 0)]
     for wset in b["wsets"]:
         for root in ROOTS:
             if wset != 0 and root != "text":
@@ -878,6 +1070,9 @@ def run_shard(shard, tier, st):
     if kind == "raw":
         raw_shard(shard[1], tier, st)
         return
+    if kind == "misc":
+        misc_shard(tier, st)
+        return
     if kind == "pre":
         sd = min(b["shard_depth"], depth_of(tier, root, wset))
         final = depth_of(tier, root, wset) <= sd
@@ -894,9 +1089,21 @@ def run_shard(shard, tier, st):
     st.add("real_runs_complete_file", ck.bench.full_runs)
 
 
+def jdec_events(v):
+    from mc.core import jdec
+
+    return jdec(v["case"]).get("events", [])
+
+
 def replay(case):
     from mc.core import Stats
 
+    if case.get("family") == "misc":
+        st = Stats()
+        misc_shard("quick", st)
+        want = [gfx.ev_from_json(e) for e in case.get("events", [])]
+        hits = [v for v in st.violations if [gfx.ev_from_json(e) for e in jdec_events(v)] == want] or st.violations
+        return [{"signature": v["signature"], "expected": repr(v["expected"]), "observed": repr(v["observed"])} for v in hits[:1]]
     if case.get("family") == "leftover":
         st = Stats()
         left_check(tuple(gfx.ev_from_json(e) for e in case["leftover"]) if isinstance(case["leftover"], (list, tuple)) else (), st)
